@@ -118,7 +118,7 @@ fn check_point(pb: &ProgressBar, tr: &Track, ctx: &str) -> Result<(), Fail> {
 
 fn apply(pb: &ProgressBar, ev: &Ev, tr: &mut Track, pos: &mut u64) {
     let now = clock::now_ns();
-    let mut forward = |new: u64, tr: &mut Track| {
+    let forward = |new: u64, tr: &mut Track| {
         if new > tr.last_pos && now > tr.last_t {
             let rate = (new - tr.last_pos) as f64 / ((now - tr.last_t) as f64 / 1e9);
             tr.max_rate = tr.max_rate.max(rate);
@@ -512,6 +512,105 @@ fn twin_strategy(_tier: Tier) -> BoxedStrategy<TwinCase> {
         .boxed()
 }
 
+fn decode_laws(u: &mut FuzzInput) -> LawCase {
+    fn gap(u: &mut FuzzInput) -> u64 {
+        match u.n(9) {
+            0..=2 => 1 + u.n(18) as u64,
+            3..=5 => u.range(20, 2_000),
+            6 | 7 => u.range(2_000, 120_000),
+            8 => u.range(120_000, 3_600_000),
+            _ => u.range(3_600_000, 864_000_000),
+        }
+    }
+    let len = if u.n(6) == 0 { None } else { Some(match u.n(2) { 0 => u.range(0, 100_000), 1 => 1u64 << u.n(62), _ => u.u64() }) };
+    let mut steps = vec![];
+    let n = u.n(40);
+    for _ in 0..n {
+        let g = gap(u);
+        let ev = match u.n(17) {
+            0..=9 => Ev::Inc(match u.n(8) { 0 | 1 => 0, 2..=5 => u.range(1, 100), 6 | 7 => u.range(100, 1_000_000), _ => { let k = u.n(49); u.range(1, 1u64 << k) } }),
+            10 => Ev::SetPos(if u.bool() { u.range(0, 1000) } else { u.u64() >> 11 }),
+            11 => Ev::Tick,
+            12 => Ev::ResetEta,
+            13 => Ev::ResetElapsed,
+            14 => Ev::Reset,
+            15 => Ev::SetLen(if u.n(4) == 0 { None } else { Some(if u.bool() { u.range(0, 10_000) } else { u.u64() }) }),
+            16 => Ev::Finish,
+            _ => Ev::Abandon,
+        };
+        steps.push((g, ev));
+    }
+    let stall = (0..u.n(7)).map(|_| gap(u)).collect();
+    LawCase { len, steps, stall }
+}
+
+// ------------------------------------------------------------------------------------------
+// several updaters (real threads, real clock): the reported values stay finite and non-negative
+
+#[derive(Debug, Clone, Serialize, Deserialize)]
+pub struct SharedCase {
+    threads: u8,
+    updates: u16,
+    /// each updater calls tick() after inc() (a second sample with its own, possibly older, time stamp)
+    tick: bool,
+}
+
+fn run_shared(c: &SharedCase) -> CaseResult {
+    let pb = ProgressBar::with_draw_target(Some(u64::MAX / 2), ProgressDrawTarget::hidden());
+    let n = c.threads.clamp(2, 8) as usize;
+    let updates = c.updates.clamp(100, 20_000) as u64;
+    let stop = std::sync::atomic::AtomicBool::new(false);
+    let bad = std::sync::Mutex::new(None::<String>);
+    let probe = |when: &str| {
+        let (ps, eta, dur) = (pb.per_sec(), pb.eta(), pb.duration());
+        if !(ps.is_finite() && ps >= 0.0) {
+            bad.lock().unwrap().get_or_insert(format!("{when}: per_sec() = {ps}"));
+        }
+        let _ = (eta, dur);
+    };
+    let r = catch(|| {
+        std::thread::scope(|s| {
+            let hs: Vec<_> = (0..n)
+                .map(|_| {
+                    let pb = pb.clone();
+                    s.spawn(move || {
+                        for _ in 0..updates {
+                            pb.inc(1);
+                            if c.tick {
+                                pb.tick();
+                            }
+                        }
+                    })
+                })
+                .collect();
+            s.spawn(|| {
+                while !stop.load(std::sync::atomic::Ordering::Relaxed) {
+                    probe("while the updaters run");
+                    std::thread::yield_now();
+                }
+            });
+            for h in hs {
+                h.join().unwrap();
+            }
+            stop.store(true, std::sync::atomic::Ordering::Relaxed);
+        })
+    });
+    stop.store(true, std::sync::atomic::Ordering::Relaxed);
+    r.map_err(|p| Fail::new("panic", format!("{n} concurrent updaters: {p}")))?;
+    probe("after the updaters finished");
+    std::thread::sleep(Duration::from_millis(2));
+    probe("2 ms after the updaters finished");
+    if let Some(b) = bad.lock().unwrap().take() {
+        return Err(Fail::new("finite", format!("{n} threads x {updates} inc(1){} on clones of one bar: {b}", if c.tick { " + tick()" } else { "" })));
+    }
+    ensure!(pb.position() == n as u64 * updates, "harness", "position {}", pb.position());
+    let mut v = Verdict::default();
+    v.nontrivial = true;
+    v.label("concurrent_updaters");
+    v.label_if(c.tick, "inc_and_tick");
+    Ok(v)
+}
+
 pub fn property() -> Property {
     let w = default_workers();
     Property {
@@ -533,7 +632,7 @@ pub fn property() -> Property {
                 signature: laws_signature,
                 essential: &["three_updates_two_gaps", "reset_or_rewind", "stall_queried", "rate_changed", "finished"],
                 workers: w,
-                decode: None,
+                decode: Some(decode_laws),
             }),
             Box::new(Gen::<SteadyCase> {
                 name: "steady",
@@ -555,6 +654,17 @@ pub fn property() -> Property {
                 signature: no_signature,
                 essential: &["different_prehistories_then_progress", "rewind", "reset_all", "reset_eta"],
                 workers: w,
+                decode: None,
+            }),
+            Box::new(Gen::<SharedCase> {
+                name: "shared",
+                rule: "2-8 real threads call inc(1) (and tick()) 100-20000 times on clones of one bar while another thread queries per_sec/eta/duration: every value read, during and after, must be finite and non-negative (time stamps taken before the state lock may arrive out of order); real clock, no virtual time",
+                strategy: |_| (2u8..=8, 100u16..20_000, any::<bool>()).prop_map(|(threads, updates, tick)| SharedCase { threads, updates, tick }).boxed(),
+                cases: |t| t.pick(6, 400),
+                run: run_shared,
+                signature: no_signature,
+                essential: &["concurrent_updaters", "inc_and_tick"],
+                workers: 2,
                 decode: None,
             }),
         ],
